@@ -18,6 +18,7 @@ structure World where
                                          --   in force at the earlier renderings of THIS tree (components memoise resolved
                                          --   values and accumulate state from one Render to the next)
   validation : Doc → Option Err          -- invalid-attribute error reported while building the tree
+  renderErr : Doc → Option Err           -- the document parses but rendering its body fails (mj-carousel without images, …)
   reorder : Html → Html                  -- normalizeGroupColumnClassOrder
 
 structure St where
@@ -41,9 +42,12 @@ inductive Res
 deriving Repr, DecidableEq
 
 def finish (w : World) (d : Doc) (h : Html) : Res :=
-  match w.validation d with
-  | none => .ok h
-  | some e => .okValidation h e
+  match w.renderErr d with
+  | some e => .fail e
+  | none =>
+    match w.validation d with
+    | none => .ok h
+    | some e => .okValidation h e
 
 def step (w : World) (s : St) : Call → St × Res
   | .render d =>
@@ -66,7 +70,9 @@ def step (w : World) (s : St) : Call → St × Res
     match s.trees[k]? with
     | none => (s, .noSuchTree)
     | some (d, gb, seen) =>                                    -- reads whatever the store holds NOW
-      ({ s with trees := s.trees.set k (d, gb, seen ++ [s.g.getD 0]) }, .ok (w.html d gb (s.g.getD 0) seen))
+      match w.renderErr d with
+      | some e => (s, .fail e)
+      | none => ({ s with trees := s.trees.set k (d, gb, seen ++ [s.g.getD 0]) }, .ok (w.html d gb (s.g.getD 0) seen))
 
 def run (w : World) (s : St) : List Call → St × List Res
   | [] => (s, [])
@@ -96,41 +102,43 @@ theorem history_independent (w : World) (hist : List Call) (c : Call) (h : ∀ k
 theorem paths_agree (w : World) (s s' : St) (d : Doc) (hv : w.validation d = none) (hp : w.parse d = .ok ()) :
     (step w s (.render d)).2 = (match (step w s' (.renderFromAST d)).2 with | .ok h => .ok (w.reorder h) | r => r) ∧
     (step w s (.renderWithAST d)).2 = (step w s' (.renderFromAST d)).2 := by
-  simp [step, hp, finish, hv]
+  cases hr : w.renderErr d <;> simp [step, hp, finish, hv, hr]
 
 /-- the step-by-step path, taken without anything in between, yields the same HTML as RenderFromAST -/
-theorem new_then_render (w : World) (s : St) (d : Doc) (hp : w.parse d = .ok ()) :
+theorem new_then_render (w : World) (s : St) (d : Doc) (hp : w.parse d = .ok ()) (hr : w.renderErr d = none) :
     let s1 := (step w s (.newFromAST d)).1
     (step w s1 (.renderTree s.trees.length)).2 = .ok (w.html d (w.attrs d) (w.attrs d) []) := by
-  simp [step, hp]
+  simp [step, hp, hr]
 
 /-- a tree rendered later depends on the store left by whatever was compiled in between … -/
-theorem tree_reads_current_store (w : World) (s : St) (k : Nat) (d : Doc) (gb : G) (seen : List G) (hk : s.trees[k]? = some (d, gb, seen)) :
+theorem tree_reads_current_store (w : World) (s : St) (k : Nat) (d : Doc) (gb : G) (seen : List G) (hk : s.trees[k]? = some (d, gb, seen))
+    (hr : w.renderErr d = none) :
     (step w s (.renderTree k)).2 = .ok (w.html d gb (s.g.getD 0) seen) := by
-  simp [step, hk]
+  simp [step, hk, hr]
 
 /-- … so it equals the fresh result whenever the store still holds this document's own attributes -/
 theorem tree_ok_if_store_own (w : World) (s : St) (k : Nat) (d : Doc) (seen : List G) (hk : s.trees[k]? = some (d, w.attrs d, seen))
-    (hg : s.g = some (w.attrs d)) (hstateless : w.html d (w.attrs d) (w.attrs d) seen = w.html d (w.attrs d) (w.attrs d) []) :
+    (hg : s.g = some (w.attrs d)) (hstateless : w.html d (w.attrs d) (w.attrs d) seen = w.html d (w.attrs d) (w.attrs d) [])
+    (hr : w.renderErr d = none) :
     (step w s (.renderTree k)).2 = .ok (w.html d (w.attrs d) (w.attrs d) []) := by
-  simp [step, hk, hg, hstateless]
+  simp [step, hk, hg, hstateless, hr]
 
 /-- **C06(b) trichotomy**: every call returns exactly one of the three result shapes, and a validation error never
     changes the HTML -/
 theorem result_shapes (w : World) (s : St) (c : Call) (h : ∀ k, c ≠ .renderTree k) :
     (∃ html, (step w s c).2 = .ok html) ∨ (∃ html e, (step w s c).2 = .okValidation html e) ∨ (∃ e, (step w s c).2 = .fail e) := by
   cases c with
-  | render d => simp only [step, finish]; cases w.parse d <;> cases w.validation d <;> simp
-  | renderWithAST d => simp only [step, finish]; cases w.parse d <;> cases w.validation d <;> simp
-  | renderFromAST d => simp only [step, finish]; cases w.parse d <;> cases w.validation d <;> simp
+  | render d => simp only [step, finish]; cases w.parse d <;> cases w.renderErr d <;> cases w.validation d <;> simp
+  | renderWithAST d => simp only [step, finish]; cases w.parse d <;> cases w.renderErr d <;> cases w.validation d <;> simp
+  | renderFromAST d => simp only [step, finish]; cases w.parse d <;> cases w.renderErr d <;> cases w.validation d <;> simp
   | newFromAST d => simp only [step]; cases w.parse d <;> simp
   | renderTree k => exact absurd rfl (h k)
 
 theorem validation_keeps_html (w w' : World) (s : St) (d : Doc) (hp : w.parse d = .ok ())
-    (hsame : w'.parse = w.parse ∧ w'.attrs = w.attrs ∧ w'.html = w.html ∧ w'.reorder = w.reorder) (e : Err)
-    (hv : w.validation d = some e) (hv' : w'.validation d = none) :
+    (hsame : w'.parse = w.parse ∧ w'.attrs = w.attrs ∧ w'.html = w.html ∧ w'.reorder = w.reorder ∧ w'.renderErr = w.renderErr) (e : Err)
+    (hr : w.renderErr d = none) (hv : w.validation d = some e) (hv' : w'.validation d = none) :
     ∃ html, (step w s (.render d)).2 = .okValidation html e ∧ (step w' s (.render d)).2 = .ok html := by
-  obtain ⟨h1, h2, h3, h4⟩ := hsame
-  simp [step, hp, finish, hv, hv', h1, h2, h3, h4]
+  obtain ⟨h1, h2, h3, h4, h5⟩ := hsame
+  simp [step, hp, finish, hv, hv', h1, h2, h3, h4, h5, hr]
 
 end Gomjml.Api
